@@ -67,3 +67,97 @@ Theorem C12_generated_applies_other_order_refuted :
 Proof. exact generated_applies_other_order_refuted_lemma. Qed.
 Print Assumptions C12_generated_applies_other_order_refuted.
 
+
+(** ** the selection of generatePopData as coded, on the relations structure, with payload ids (GenDefs):
+    relations in a height-sorted order (EVERY such order: relations_ is an unordered_map and std::sort is not stable),
+    header / ATVs / VTBs of each relation appended, then filterInvalidPayloads (canFit, stateless duplicate,
+    mutator.add) over context, VTBs, ATVs. The verdicts of the tree are oracles the theorems quantify over. *)
+From Coq Require Import Permutation.
+From VB Require Import Mempool.RelDefs Mempool.RelProofs Mempool.RelMore Mempool.GenDefs Mempool.GenProofs Mempool.GenMore.
+
+(** whatever was submitted before (any operation sequence, no caller contract): everything handed out is a CONNECTED
+    payload of the pool *)
+Theorem C12_selection_from_pool :
+  forall (par bop cont szB szV szA : N -> N) L treeB dupB dupV dupA okB okV okA ops s order,
+    rrun bop cont mp0 ops = ROk s -> Permutation order (rels s) ->
+    let out := generatePop par bop cont szB szV szA L treeB dupB dupV dupA okB okV okA order in
+    incl (o_ctx out) (vbks s) /\ incl (o_vtbs out) (svtbs s) /\ incl (o_atvs out) (satvs s).
+Proof. exact selection_from_pool_run_lemma. Qed.
+Print Assumptions C12_selection_from_pool.
+
+(** for every candidate order sorted by height and every oracle: no id twice; context blocks by ascending height, each
+    one known to the tree already or preceded by its previous block (in the tree or EARLIER in the context); every
+    VTB / ATV has its containing block / block of proof in the tree or in the returned context (which a block body
+    applies first); nothing the tree marks as already on the active chain *)
+Theorem C12_selection_valid :
+  forall (hgt par bop cont szB szV szA : N -> N) L treeB dupB dupV dupA okB okV okA order,
+    asc hgt (map hdr order) ->
+    let out := generatePop par bop cont szB szV szA L treeB dupB dupV dupA okB okV okA order in
+    NoDup (o_ctx out) /\ NoDup (o_vtbs out) /\ NoDup (o_atvs out) /\
+    asc hgt (o_ctx out) /\
+    (forall pre b post, o_ctx out = pre ++ b :: post ->
+       dupB b = false /\ (treeB b = true \/ treeB (par b) = true \/ In (par b) pre)) /\
+    (forall t, In t (o_vtbs out) -> dupV t = false /\ (treeB (cont t) = true \/ In (cont t) (o_ctx out))) /\
+    (forall a, In a (o_atvs out) -> dupA a = false /\ (treeB (bop a) = true \/ In (bop a) (o_ctx out))).
+Proof. exact selection_valid_lemma. Qed.
+Print Assumptions C12_selection_valid.
+
+(** assertPopDataFits on the ids handed out: the three counts and estimateSize respect the limits (same accounting as
+    C12_generated_fits, now tied to the selection) *)
+Theorem C12_selection_fits :
+  forall (par bop cont szB szV szA : N -> N) L treeB dupB dupV dupA okB okV okA order,
+    10 <= max_size L ->
+    out_fits szB szV szA L
+      (generatePop par bop cont szB szV szA L treeB dupB dupV dupA okB okV okA order) = true.
+Proof. exact selection_fits_lemma. Qed.
+Print Assumptions C12_selection_fits.
+
+(** a height-sorted permutation of the relations exists (the hypotheses above are satisfiable for every pool) *)
+Theorem C12_sorted_order_exists :
+  forall (hgt : N -> N) rs, is_order hgt rs (sort_rels hgt rs).
+Proof. exact sort_is_order_lemma. Qed.
+Print Assumptions C12_sorted_order_exists.
+
+(** the pool side of generatePopData (tryConnectPayloads before, cleanUp after; the selection itself only reads): no
+    assertion, the bookkeeping invariant is kept, and no payload appears - every ATV / VTB known afterwards was known
+    before. (It is not the identity: see C13_cleanUp_exact for what leaves.) *)
+Theorem C12_generate_pool_effect :
+  forall (bop cont : N -> N) c o s,
+    RInv bop cont s -> DInv s ->
+    exists s', generate bop cont c o s = ROk s' /\ RInv bop cont s' /\
+      (forall a, KA s' a -> KA s a) /\ (forall t, KV s' t -> KV s t).
+Proof. exact generate_pool_effect_lemma. Qed.
+Print Assumptions C12_generate_pool_effect.
+
+(** non-vacuity: a pool where block 8 connects only through block 7 of an ATV, with an ATV already on chain *)
+Theorem C12_selection_example :
+  exists s, rrun xbop xcont mp0 [SubB Fine false 8; SubV Fine 3; SubA Fine 1; SubA Fine 2] = ROk s /\
+    is_order xhgt (rels s) (sort_rels xhgt (rels s)) /\
+    xgen wide (fun a => a =? 2) (sort_rels xhgt (rels s)) = mkout [7; 8] [3] [1] /\
+    xgen wide (fun a => a =? 2) [mkr 8 [3] []; mkr 7 [] [2; 1]] = mkout [7] [] [1].
+Proof. exact gen_example. Qed.
+Print Assumptions C12_selection_example.
+
+(** "the result depends only on the pool content and the tree" is FALSE as coded: (1) rel.vtbs keeps the submission
+    order and the VTB limit cuts it - two pools with the same content, same tree, different PopData; *)
+Theorem C12_selection_submission_order_refuted :
+  exists s12 s21,
+    rrun xbop xcont mp0 [SubB Fine false 7; SubV Fine 1; SubV Fine 2] = ROk s12 /\
+    rrun xbop xcont mp0 [SubB Fine false 7; SubV Fine 2; SubV Fine 1] = ROk s21 /\
+    (forall x, In x (vbks s12) <-> In x (vbks s21)) /\ (forall x, In x (svtbs s12) <-> In x (svtbs s21)) /\
+    satvs s12 = satvs s21 /\ fb s12 = fb s21 /\ fv s12 = fv s21 /\ fa s12 = fa s21 /\
+    xgen one_vtb nodup (sort_rels xhgt (rels s12)) = mkout [7; 8] [1] [] /\
+    xgen one_vtb nodup (sort_rels xhgt (rels s21)) = mkout [7; 8] [2] [].
+Proof. exact order_dependent_example. Qed.
+Print Assumptions C12_selection_submission_order_refuted.
+
+(** (2) equal heights: both orders of two fork blocks of one height are height-sorted permutations of the SAME pool;
+    under a block limit of 1 the results differ (which one the library returns depends on the hash-map iteration
+    order and on std::sort) *)
+Theorem C12_selection_equal_height_refuted :
+  let rs := [mkr 5 [] []; mkr 6 [] []] in
+  let rs' := [mkr 6 [] []; mkr 5 [] []] in
+  is_order fork_hgt rs rs /\ is_order fork_hgt rs rs' /\
+  fork_gen rs = mkout [5] [] [] /\ fork_gen rs' = mkout [6] [] [].
+Proof. exact equal_height_example. Qed.
+Print Assumptions C12_selection_equal_height_refuted.
